@@ -7,6 +7,7 @@ mod c13serve;
 mod c14;
 mod c15;
 mod c16;
+mod c17live;
 mod c18;
 mod c20;
 mod corescn;
@@ -72,6 +73,7 @@ fn scenario_for(property: &str, name: &str, thorough: bool, known: &Known) -> Op
         ("C13", "lock-queue") => Box::new(props_session::c13_locks(known)),
         ("C13", "serve-pipelined") => Box::new(c13serve::scenario(known, true)),
         ("C13", _) => Box::new(props_session::c13(known, true)),
+        ("C17", "monitoring-on") => Box::new(c17live::scenario()),
         ("C17", "adversary-core") => Box::new(props_session::c17(known, false)),
         ("C17", "adversary-key-shapes") => Box::new(props_session::c17_keys(known)),
         ("C17", _) => Box::new(props_session::c17(known, true)),
@@ -276,6 +278,8 @@ fn main() {
             run_one("send-buffer", &buf, lim(if thorough { 7 } else { 5 }, 3, false, if thorough { 600 } else { 30 }), &mut ev, &mut rep, "tree");
             let gbuf = c20::gated_buffer_scenario();
             run_one("send-buffer-slow-server", &gbuf, lim(if thorough { 8 } else { 6 }, 3, false, if thorough { 600 } else { 30 }), &mut ev, &mut rep, "tree");
+            let ids = c20::id_scenario();
+            run_one("transaction-ids", &ids, lim(if thorough { 7 } else { 5 }, 3, false, if thorough { 600 } else { 30 }), &mut ev, &mut rep, "tree");
             let (nt, tsamples) = c20::run_typed(&mut rep);
             ev.add("evaluations", nt);
             ev.set("typed_result_comparisons", serde_json::json!(nt));
@@ -398,6 +402,12 @@ fn main() {
                     "adversary-core".into(),
                     Box::new(props_session::c17(&known, false)),
                     Tiered { quick: lim(3, 2, false, 40), thorough: lim(4, 3, false, 600) },
+                    "tree",
+                ),
+                (
+                    "monitoring-on".into(),
+                    Box::new(c17live::scenario()),
+                    Tiered { quick: lim(2, 1, false, 30), thorough: lim(3, 2, false, 400) },
                     "tree",
                 ),
                 (
